@@ -48,7 +48,15 @@ def main():
                 bad += 1
                 print("%-8s STALE (old text occurs %d times)" % (m["id"], src.count(m["old"])))
                 continue
-            open(path, "w").write(src.replace(m["old"], m["new"]))
+            src = src.replace(m["old"], m["new"])
+            if "old2" in m:
+                if src.count(m["old2"]) != 1:
+                    rows.append((m, "STALE", "second anchor text occurs %d times" % src.count(m["old2"])))
+                    bad += 1
+                    print("%-8s STALE (old2 occurs %d times)" % (m["id"], src.count(m["old2"])))
+                    continue
+                src = src.replace(m["old2"], m["new2"])
+            open(path, "w").write(src)
             rc, out = sh("go build ./... 2>&1 | head -5", cwd=SCR, check=False)
             rc2, out2 = sh("go vet -vettool=/bin/true ./... >/dev/null 2>&1; go build ./...", cwd=SCR, check=False)
             if rc2 != 0:
